@@ -535,7 +535,7 @@ UNITS.append(Unit("C16", "jsonargparse._link_arguments:ActionLink.reorder", ro_s
 
 # ------------------------------------------------------------------------------------------------ ActionLink.instantiation_order
 def io_setup(ctx):
-    scen = ["no-links", "one-link", "chain", "two-sources", "init_args-target", "nested-targets", "nested-init_args-targets", "same-target-twice"][ctx.choose(8, "links")]
+    scen = ["no-links", "one-link", "chain", "two-sources", "init_args-target", "nested-targets", "nested-init_args-targets", "same-target-twice", "three-levels-of-targets"][ctx.choose(9, "links")]
     A = lambda dest: Rec("Action", attrs={"dest": dest})  # noqa: E731
     L = lambda sources, target: Rec("ActionLink", attrs={"source": [(s, A(s)) for s in sources], "target": (target, A(target.split(".")[0]))})  # noqa: E731
     links = {
@@ -547,6 +547,7 @@ def io_setup(ctx):
         "nested-targets": [L(["a"], "b.x"), L(["c"], "b.sub.y")],
         "nested-init_args-targets": [L(["a"], "m.init_args.x"), L(["c"], "m.init_args.child.init_args.y")],
         "same-target-twice": [L(["a"], "b.x"), L(["c"], "b.y")],
+        "three-levels-of-targets": [L(["a"], "b.x"), L(["c"], "b.sub.y"), L(["d"], "b.sub.deep.z")],
     }[scen]
     edges = []
     order_result = Rec("topological order")
@@ -566,6 +567,7 @@ IO_EXPECT = {
     "one-link": {("a", "b")}, "chain": {("a", "b"), ("b", "c")}, "two-sources": {("a", "b"), ("d", "b")}, "init_args-target": {("a", "m")},
     "nested-targets": {("a", "b"), ("c", "b.sub"), ("b.sub", "b")}, "nested-init_args-targets": {("a", "m"), ("c", "m.init_args.child"), ("m.init_args.child", "m")},
     "same-target-twice": {("a", "b"), ("c", "b")},
+    "three-levels-of-targets": {("a", "b"), ("c", "b.sub"), ("d", "b.sub.deep"), ("b.sub", "b"), ("b.sub.deep", "b"), ("b.sub.deep", "b.sub")},
 }
 
 
@@ -590,3 +592,47 @@ UNITS.append(Unit("C16", "jsonargparse._link_arguments:ActionLink.instantiation_
 # the declaration of a link (cycle check at link creation; a refused link leaves the parser usable)
 from contracts.share import shared  # noqa: E402
 UNITS += shared("C16", "contracts.c15", "ActionLink.__init__")
+
+
+# apply_instantiation_links, final pass: the links that are still due are applied in the instantiation order (a link whose source is
+# itself a link target must see the value the earlier link put there), i.e. in the order reorder(order, links) gives
+def ail2_setup(ctx):
+    with_order = ctx.choose(2, "order-given") == 1
+    n_due = ctx.choose(3, "links-still-due")
+    objs = {"s1": Rec("object s1"), "s2": Rec("object s2")}
+    mk = lambda i: Rec("ActionLink", attrs={"target": (f"t{i}", Rec("Action")), "source": [(f"s{i}", Rec("Action", attrs={"dest": f"s{i}"}))], "compute_fn": None, "option_strings": [f"--l{i}"], "dest": f"t{i}"})  # noqa: E731
+    links = [mk(1), mk(2)][:n_due]
+    applied = set()
+    cfg = Rec("Namespace", methods={"__contains__": lambda c, s_, a, k: False, "__getitem__": lambda c, s_, a, k: objs[a[0]], "__setitem__": lambda c, s_, a, k: c.event("cfg-set", a[0], a[1])})
+    parser = Rec("ArgumentParser", attrs={"_links_group": Rec("g"), "logger": Rec("Logger", methods={"debug": lambda c, s_, a, k: None})})
+    order = ["t2", "t1"] if with_order else None
+
+    def reorder(c, a, k):
+        c.event("reorder", a[0], list(a[1]))
+        return list(reversed(a[1]))
+
+    calls = {"get_link_actions": lambda c, a, k: (c.event("due-links", a[1], k.get("skip")), list(links))[1], "set": lambda c, a, k: applied, "ActionLink.reorder": reorder,
+             "is_nested_instantiation_link": lambda c, a, k: False, "ActionLink.set_target_value": lambda c, a, k: c.event("set-target", a[0], a[1])}
+    return Setup(env={"parser": parser, "cfg": cfg, "target": None if with_order else "t1", "order": order}, calls=calls, data=dict(with_order=with_order, links=links, objs=objs, order=order, applied=applied))
+
+
+def ail2_post(ctx, st, result):
+    d = st.data
+    tag = f"[{'final pass with order' if d['with_order'] else 'one target'},{len(d['links'])} links due]"
+    sets = [e for e in ctx.events if e[0] == "set-target"]
+    ro = [e for e in ctx.events if e[0] == "reorder"]
+    if d["with_order"]:
+        want = list(reversed(d["links"]))
+        ctx.oblige("post", "with-an-instantiation-order-the-due-links-are-applied-in-the-order-reorder(order, links)-gives" + tag,
+                   [e[1] for e in sets] == want and (len(ro) == (1 if d["links"] else 0)) and all(e[1] is d["order"] and e[2] == d["links"] for e in ro))
+    else:
+        want = [x for x in d["links"] if x.attrs["target"][0] == "t1"]
+        ctx.oblige("post", "for-one-target-only-the-links-into-it-are-applied,in-declaration-order,without-reordering" + tag, [e[1] for e in sets] == want and not ro)
+    ctx.oblige("post", "each-applied-link-feeds-its-target-with-its-source-object-and-is-marked-applied" + tag,
+               all(e[2] is d["objs"][e[1].attrs["source"][0][0]] for e in sets) and d["applied"] == set(e[1] for e in sets))
+    dl = [e for e in ctx.events if e[0] == "due-links"]
+    ctx.oblige("post", "only-instantiation-links-not-applied-yet-are-considered" + tag, len(dl) == 1 and dl[0][1] == "instantiate" and dl[0][2] is d["applied"])
+
+
+UNITS.append(Unit("C16", "jsonargparse._link_arguments:ActionLink.apply_instantiation_links", ail2_setup, ail2_post, ail_raises, label="order-of-application", max_paths=200,
+                  trusted=["ActionLink.reorder: its own unit", "get_link_actions: its own unit (C15)", "set_target_value: its own unit (C15)"]))
